@@ -40,7 +40,7 @@ def run(sc, tier, replay):
     V = vlib.Verdicts(PID)
     thorough = tier == "thorough"
     binary = vlib.go_build(sc, "./cmd/fed", "fed")
-    off = ["nodupkey", "nodirid", "nofragdirs"]
+    off = ["nodirid", "nofragdirs"]
     strata = {"core": (off + ["oddids", "richargs"], 0.45), "skeleton": (off + ["skeleton"], 0.3), "abstract": (off + ["abstract"], 0.25)}
     total_worlds, ops, repeats = (1400, 12, 25) if thorough else (280, 10, 6)
     stats = {}
